@@ -355,7 +355,15 @@ func reachableCells(v value, cells map[*value]bool, maps map[*mapVal]bool, depth
 
 func registerConcIntrinsics(reg func(string, intrinsic)) {
 	reg(hp+"verifSchedAll", func(x *Exec, fr *frame, args []value) value {
-		x.sched = newScheduler(x, int(x.concInt(args[0], "preemption bound")))
+		b := int(x.concInt(args[0], "preemption bound"))
+		if b < 0 {
+			// one fixed schedule (policy -b) instead of every schedule: long lists, where the number of
+			// interleavings is out of reach; the happens-before race detector still sees every access
+			x.sched = newScheduler(x, 0)
+			x.sched.policy = -b
+			return nil
+		}
+		x.sched = newScheduler(x, b)
 		return nil
 	})
 	reg(hp+"verifYield", func(x *Exec, fr *frame, args []value) value {
